@@ -67,6 +67,8 @@ pub fn gen(rng: &mut ChaCha20Rng, n: usize, thorough: bool) -> Vec<Case> {
     let mut out: Vec<Case> = Vec::new();
     let f = Feat { big: false, no_witness: false };
     let maxvec = elements::encode::MAX_VEC_SIZE as u64;
+    let mv = format!("{},{}", maxvec, std::mem::size_of::<Vec<u8>>());
+    let prof = own_mode();
 
     // ------------------------------------------------------------------ the refutations, re-derived on every run
     out.push(mk(format!("C10 hrp {}", strhex("a1")), &["ep:SegwitHrpstring::new_bech32", "src:finding-F1"], true));
@@ -75,8 +77,8 @@ pub fn gen(rng: &mut ChaCha20Rng, n: usize, thorough: bool) -> Vec<Case> {
     out.push(mk("C10 blindsel f".into(), &["ep:Transaction::blind", "src:finding-F12"], true));
     out.push(mk("C10 blindsel uf".into(), &["ep:Transaction::blind", "src:finding-F12"], true));
     out.push(mk("C10 sbuilder n".into(), &["ep:TaprootBuilder::finalize-serde", "src:finding-F16"], true));
-    out.push(mk(format!("C10 fees 3:{},3:1", u64::MAX), &["ep:Transaction::fee_in", "src:finding-F17"], true));
-    out.push(mk(format!("C10 fees 3:{},4:7,3:{}", 1u64 << 63, 1u64 << 63), &["ep:Transaction::fee_in", "src:finding-F17"], true));
+    out.push(mk(format!("C10 fees {} 3:{},3:1", prof, u64::MAX), &["ep:Transaction::fee_in", "src:finding-F17"], true));
+    out.push(mk(format!("C10 fees {} 3:{},4:7,3:{}", prof, 1u64 << 63, 1u64 << 63), &["ep:Transaction::fee_in", "src:finding-F17"], true));
 
     {   // F18: a valid commitment / generator, handed over as a shorter slice of the same buffer
         let c = rcommitment(rng).serialize(); let g = rgenerator(rng).serialize();
@@ -97,6 +99,14 @@ pub fn gen(rng: &mut ChaCha20Rng, n: usize, thorough: bool) -> Vec<Case> {
                 out.push(mk(format!("C10 x-pset {}", hex(&m)), &["ep:explore-pset-deserialize", "src:finding-F18"], true));
             }
         }
+    }
+    for v in [0u64, 1, 7] { out.push(mk(format!("C10 x-blindzero {}", v), &["ep:explore-Transaction::blind", if v == 0 { "src:finding-F20" } else { "src:fixed" }], true)); }
+    for n in [0usize, 1, 255, 256, 257] { out.push(mk(format!("C10 x-surj {}", n), &["ep:explore-Asset::blind", if n > 256 { "src:finding-F22" } else { "src:fixed" }], true)); }
+    out.push(mk("C10 x-rp64".into(), &["ep:explore-TxOut::unblind", "src:finding-F23"], true));
+    {   // F21: an issuance of explicit amount 0, through the wire
+        let mut i = TxIn::default(); i.previous_output = OutPoint::new(txid(7), 1); i.asset_issuance.amount = confidential::Value::Explicit(0); i.asset_issuance.inflation_keys = confidential::Value::Explicit(1);
+        let tx = Transaction { version: 2, lock_time: LockTime::ZERO, input: vec![i], output: vec![TxOut::new_fee(1, asset(3))] };
+        out.push(mk(format!("C10 x-verify {}", hex(&serialize(&tx))), &["ep:explore-verify_tx_amt_proofs", "src:finding-F21"], true));
     }
     // ------------------------------------------------------------------ consensus decoders
     let repo = repo_hex_vectors();
@@ -139,11 +149,11 @@ pub fn gen(rng: &mut ChaCha20Rng, n: usize, thorough: bool) -> Vec<Case> {
     // allocation probes: a length prefix promising up to MAX_VEC_SIZE (and beyond) with nothing behind it
     for len in [0u64, 1, 0xfc, 0xfd, 0xffff, 0x10000, maxvec / 24 - 1, maxvec / 24, maxvec / 24 + 1, maxvec - 1, maxvec, maxvec + 1, 0x7fff_ffff, 0xffff_ffff, 0x1_0000_0000, 1 << 40, u64::MAX / 24, u64::MAX / 24 + 1, u64::MAX] {
         let p = varint(len);
-        out.push(mk(format!("C10 vecu8 {} {}", maxvec, hex(&p)), &["ep:deserialize-Vec<u8>", "src:alloc-probe"], true));
-        out.push(mk(format!("C10 vecvec {} {}", maxvec, hex(&p)), &["ep:deserialize-Vec<Vec<u8>>", "src:alloc-probe"], true));
-        out.push(mk(format!("C10 key {} {}", maxvec, hex(&{ let mut q = p.clone(); q.push(0xfc); q })), &["ep:deserialize-raw::Key", "src:alloc-probe"], true));
-        out.push(mk(format!("C10 key {} {}", maxvec, hex(&p)), &["ep:deserialize-raw::Key", "src:alloc-probe"], true));
-        out.push(mk(format!("C10 varint {} {}", maxvec, hex(&p)), &["ep:read_varint", "src:alloc-probe"], true));
+        out.push(mk(format!("C10 vecu8 {} {}", mv, hex(&p)), &["ep:deserialize-Vec<u8>", "src:alloc-probe"], true));
+        out.push(mk(format!("C10 vecvec {} {}", mv, hex(&p)), &["ep:deserialize-Vec<Vec<u8>>", "src:alloc-probe"], true));
+        out.push(mk(format!("C10 key {} {}", mv, hex(&{ let mut q = p.clone(); q.push(0xfc); q })), &["ep:deserialize-raw::Key", "src:alloc-probe"], true));
+        out.push(mk(format!("C10 key {} {}", mv, hex(&p)), &["ep:deserialize-raw::Key", "src:alloc-probe"], true));
+        out.push(mk(format!("C10 varint {} {}", mv, hex(&p)), &["ep:read_varint", "src:alloc-probe"], true));
         // the same prefix where a script length / input count / witness stack count is expected
         let mut txo = vec![1u8]; txo.extend([0x33; 32]); txo.push(1); txo.extend(5u64.to_be_bytes()); txo.push(0); txo.extend(&p);
         out.push(dec_case("txout", &txo, "src:alloc-probe", true));
@@ -155,17 +165,17 @@ pub fn gen(rng: &mut ChaCha20Rng, n: usize, thorough: bool) -> Vec<Case> {
         if blk.len() < 3000 { out.push(dec_case("block", &blk, "src:alloc-probe", true)); }
         // nested: a stack of `k` elements each promising MAX_VEC_SIZE
         let mut st = varint(3); st.extend(varint(2)); st.extend([1, 2]); st.extend(&p);
-        out.push(mk(format!("C10 vecvec {} {}", maxvec, hex(&st)), &["ep:deserialize-Vec<Vec<u8>>", "src:alloc-probe"], true));
+        out.push(mk(format!("C10 vecvec {} {}", mv, hex(&st)), &["ep:deserialize-Vec<Vec<u8>>", "src:alloc-probe"], true));
     }
     for _ in 0..n / 4 {
         let l = rng.gen_range(0..40);
         let b = rbytes(rng, l);
         let kind = pk!(rng, ["vecu8", "vecvec", "key", "varint"]);
-        out.push(mk(format!("C10 {} {} {}", kind, maxvec, hexd(&b)), &[&format!("ep:lowlevel-{}", kind), "src:random-bytes"], true));
+        out.push(mk(format!("C10 {} {} {}", kind, mv, hexd(&b)), &[&format!("ep:lowlevel-{}", kind), "src:random-bytes"], true));
         let mut st = varint(rng.gen_range(0..5)); for _ in 0..rng.gen_range(0..5) { let e = rng.gen_range(0..4); st.extend(varint(e)); st.extend(rbytes(rng, e as usize)); }
-        out.push(mk(format!("C10 vecvec {} {}", maxvec, hexd(&st)), &["ep:deserialize-Vec<Vec<u8>>", "src:generated"], true));
+        out.push(mk(format!("C10 vecvec {} {}", mv, hexd(&st)), &["ep:deserialize-Vec<Vec<u8>>", "src:generated"], true));
         let kl = rng.gen_range(0..6u64); let mut k = varint(kl + 1); k.push(rng.gen()); k.extend(rbytes(rng, kl as usize)); if rng.gen_range(0..3) == 0 { k.truncate(rng.gen_range(0..=k.len())); }
-        out.push(mk(format!("C10 key {} {}", maxvec, hexd(&k)), &["ep:deserialize-raw::Key", "src:generated"], true));
+        out.push(mk(format!("C10 key {} {}", mv, hexd(&k)), &["ep:deserialize-raw::Key", "src:generated"], true));
     }
 
     // ------------------------------------------------------------------ scripts
@@ -182,6 +192,9 @@ pub fn gen(rng: &mut ChaCha20Rng, n: usize, thorough: bool) -> Vec<Case> {
     for s in &scripts { out.push(mk(format!("C10 script {}", hexd(s)), &["ep:Script-instructions-asm-templates", if s.len() <= 2 { "src:enumerated" } else { "src:random-bytes" }], true)); }
     for _ in 0..n / 2 { let l = rng.gen_range(0..7); out.push(mk(format!("C10 rint {}", hexd(&rbytes(rng, l))), &["ep:read_scriptint", "src:random-bytes"], true)); }
 
+    // read_uint with every size 0..=17 (F19 for sizes >= 9 when that many bytes are there)
+    out.push(mk(format!("C10 ruint {} 9 {}", prof, hex(&[1u8; 9])), &["ep:script::read_uint", "src:finding-F19"], true));
+    for size in 0..=17usize { for extra in [0isize, -1, 3] { let l = (size as isize + extra).max(0) as usize; out.push(mk(format!("C10 ruint {} {} {}", prof, size, hexd(&rbytes(rng, l))), &["ep:script::read_uint", "src:sizes"], true)); } }
     // ------------------------------------------------------------------ addresses and blech32 strings
     let mut addrs: Vec<String> = Vec::new();
     for k in 0..(n / 6).max(12) {
@@ -313,7 +326,8 @@ pub fn gen(rng: &mut ChaCha20Rng, n: usize, thorough: bool) -> Vec<Case> {
             "leafks" => { let k = rng.gen_range(0..3u64); let mut b = varint(pk!(rng, [k, k, k, 125_000, 125_001, maxvec])); b.extend(rbytes(rng, 32 * k as usize)); let l = pk!(rng, [0usize, 3, 4, 8, 9]); b.extend(rbytes(rng, l)); b }
             _ => { let mut b = vec![]; for (d, _) in [(1u8, 0), (1u8, 0)].iter().take(rng.gen_range(0..3)) { b.push(if rng.gen_range(0..4) == 0 { rng.gen() } else { *d }); b.push(pk!(rng, [0xc4u8, 0xc4, 0xc0, 0x50])); let l = rng.gen_range(0..4u64); b.extend(varint(pk!(rng, [l, l, l, maxvec, maxvec + 1]))); b.extend(rbytes(rng, l as usize)); } if rng.gen_range(0..4) == 0 { b.truncate(rng.gen_range(0..=b.len())); } b }
         };
-        out.push(mk(format!("C10 psetval {} {}", ty, hexd(&b)), &[&format!("ep:pset-value-{}", ty), "src:generated"], true));
+        let kv = ty == "xonlyleaf" && b.len() >= 32 && xonly_valid(&b[..32]);
+        out.push(mk(format!("C10 psetval {} {},{} {}", ty, kv as u8, maxvec, hexd(&b)), &[&format!("ep:pset-value-{}", ty), "src:generated"], true));
     }
 
     // ------------------------------------------------------------------ taproot sighash index handling
@@ -328,7 +342,7 @@ pub fn gen(rng: &mut ChaCha20Rng, n: usize, thorough: bool) -> Vec<Case> {
         let k = rng.gen_range(0..5);
         let items: Vec<String> = (0..k).map(|_| format!("{}:{}", rng.gen_range(1..4u8), pk!(rng, [0u64, 1, 1000, u64::MAX / 2, u64::MAX / 2 + 1, u64::MAX, rng.gen()]))).collect();
         let over = { let mut m = std::collections::HashMap::new(); for it in &items { let (a, v) = it.split_once(':').unwrap(); *m.entry(a.to_string()).or_insert(0u128) += v.parse::<u64>().unwrap() as u128; } m.values().any(|v| *v > u64::MAX as u128) };
-        out.push(mk(format!("C10 fees {}", if items.is_empty() { "-".into() } else { items.join(",") }), &["ep:Transaction::fee_in", if over { "src:generated-F17-class" } else { "src:generated" }], true));
+        out.push(mk(format!("C10 fees {} {}", prof, if items.is_empty() { "-".to_string() } else { items.join(",") }), &["ep:Transaction::fee_in", if over { "src:generated-F17-class" } else { "src:generated" }], true));
     }
 
     // ------------------------------------------------------------------ exploration in support (not proof): PSET, blind, sighash, text parsers
@@ -369,6 +383,7 @@ pub fn gen(rng: &mut ChaCha20Rng, n: usize, thorough: bool) -> Vec<Case> {
     for _ in 0..n / 2 {
         let (_, b) = &valid[rng.gen_range(0..valid.len())];
         if deserialize::<Transaction>(b).is_err() { continue; }
+        if rng.gen_range(0..3) == 0 { out.push(mk(format!("C10 x-verify {}", hexd(b)), &["ep:explore-verify_tx_amt_proofs", "src:generated"], true)); }
         out.push(mk(format!("C10 x-sighash {} {} {} {} {}", hexd(b), pk!(rng, [0usize, 1, 2, 5, 300]), pk!(rng, [0usize, 1, 2, 3, 6]), pk!(rng, [0u8, 1, 2, 3, 0x81, 0x82, 0x83]), rng.gen::<u8>()), &["ep:explore-taproot-sighash", "src:generated"], true));
     }
     for _ in 0..n / 2 {
